@@ -186,6 +186,11 @@ type PathResult struct {
 	MaxStates int // largest number of distinct states kept for one block (the cap is maxStatesPerBlock)
 }
 
+type tgtKey struct {
+	in    ssa.Instruction
+	label string
+}
+
 type PathWitness struct {
 	Label  string
 	Pos    token.Pos
@@ -199,7 +204,7 @@ type pathEngine struct {
 	res     *PathResult
 	fnID    map[*ssa.Function]int
 	retFlow map[ssa.Value]bool // values that flow into results of the functions analysed
-	tgtSeen map[ssa.Instruction]bool
+	tgtSeen map[tgtKey]bool
 	badSeen map[string]bool
 	depth   int
 	steps   int
@@ -216,7 +221,7 @@ const maxSteps = 3000000
 // RunPath evaluates a rule over all paths of r.Fn.
 func RunPath(p *Prog, r *PathRule) *PathResult {
 	e := &pathEngine{p: p, r: r, res: &PathResult{Labels: map[string]int{}}, fnID: map[*ssa.Function]int{}, retFlow: map[ssa.Value]bool{},
-		tgtSeen: map[ssa.Instruction]bool{}, badSeen: map[string]bool{}, vals: map[string]ssa.Value{}, dfns: map[string]*ssa.Function{}, evErr: map[string]int{}}
+		tgtSeen: map[tgtKey]bool{}, badSeen: map[string]bool{}, vals: map[string]ssa.Value{}, dfns: map[string]*ssa.Function{}, evErr: map[string]int{}}
 	if r.Fn == nil || len(r.Fn.Blocks) == 0 {
 		e.res.Undecided = append(e.res.Undecided, "function has no body")
 		return e.res
@@ -473,6 +478,17 @@ func (e *pathEngine) known(st *PState, v ssa.Value) Tri {
 		}
 		return False
 	}
+	// a value that IS one of the rule's atoms (a comparison stored in a variable or returned) is known through the atom
+	if e.r.Atom != nil {
+		if name, neg := e.r.Atom(v); name != "" {
+			if t, ok := st.facts["@"+name]; ok && t != Unknown {
+				if neg {
+					return t.not()
+				}
+				return t
+			}
+		}
+	}
 	switch x := v.(type) {
 	case *ssa.MakeInterface, *ssa.Alloc, *ssa.MakeClosure, *ssa.MakeMap, *ssa.MakeSlice, *ssa.MakeChan, *ssa.Function:
 		return False // never nil
@@ -727,9 +743,38 @@ func (e *pathEngine) run(f *ssa.Function, st0 *PState) []*PState {
 				work = append(work, workItem{b: b.Succs[0], pred: b, st: st})
 				forked = true
 			case *ssa.Return:
-				e.target(in, st)
-				st.ret = x
-				exits = append(exits, st)
+				// a boolean result computed without a branch (return a >= b) carries a condition of its own: the
+				// two outcomes are separate paths, so that rules about "returns true/false" see which facts hold
+				states := []*PState{st}
+				if f == e.r.Fn {
+					for _, res := range x.Results {
+						if !isBoolType(res.Type()) {
+							continue
+						}
+						var next []*PState
+						for _, s0 := range states {
+							if e.known(s0, res) != Unknown {
+								next = append(next, s0)
+								continue
+							}
+							k, onTrue, ok := e.cond(s0, res)
+							if !ok || strings.HasPrefix(k, "const:") || s0.facts[k] != Unknown {
+								next = append(next, s0)
+								continue
+							}
+							a, b := s0.clone(), s0
+							a.facts[k] = onTrue
+							b.facts[k] = onTrue.not()
+							next = append(next, a, b)
+						}
+						states = next
+					}
+				}
+				for _, s0 := range states {
+					e.target(in, s0)
+					s0.ret = x
+					exits = append(exits, s0)
+				}
 				forked = true
 			case *ssa.Panic:
 				e.target(in, st)
@@ -961,8 +1006,9 @@ func (e *pathEngine) target(in ssa.Instruction, st *PState) {
 	if label == "" {
 		return
 	}
-	if !e.tgtSeen[in] {
-		e.tgtSeen[in] = true
+	// a site is a (instruction, label) pair: one return instruction that can report two outcomes is two sites
+	if sk := (tgtKey{in, label}); !e.tgtSeen[sk] {
+		e.tgtSeen[sk] = true
 		e.res.Targets++
 		e.res.Labels[label]++
 	}
